@@ -305,7 +305,7 @@ def run(tier: str, only=None) -> int:
     if tier == "quick":
         b_sync, b_stmt, cap = {"ps": 2, "free": 1}, {"ps": 0, "pl": 2, "free": 0}, 300000
     else:
-        b_sync, b_stmt, cap = {"ps": 3, "free": 2}, {"ps": 1, "pl": 2, "free": 1}, 6000000
+        b_sync, b_stmt, cap = {"ps": 2, "free": 2}, {"ps": 0, "pl": 2, "free": 1}, 6000000
     for i, C in enumerate(cases(tier)):
         name = f"cb/{i}:{C['end']}:n{C['n']}k{C['k']}:{'E' if C['endmarker'] else 'N'}:d{C['delay']}" + (":cbclose" if C.get("cb_close") else "") + (":localclose" if C.get("local_close") else "") + (":dropped" if C.get("drop_handle") else "")
         if only and only not in name:
